@@ -155,8 +155,35 @@ def analyse(ctx, replace=None, only=None):
             R.check(len(cs) == 1 and cs[0].node["callee"] == want and [argstr(f, cs[0].node, i, addr=False) for i in (0, 1)] == ["a", "b"], "SPEC", "size_t:%s:forwards" % nm, where(f, cs[0]) if cs else nm,
                     "forwards (a, b) to %s" % want, "does not forward (a, b) in order to %s" % want)
     minmax(R, P)
+    builtin_zero_guard(R, P)
     fallback(ctx, R, replace)
     convert(R, P)
+
+
+def builtin_zero_guard(R, P):
+    """SPEC(clz/ctz, builtin variant): __builtin_clz* / __builtin_ctz* are undefined for 0; every call is reached only when the
+    argument is known non-zero (the zero case returns the bit width explicitly), and the size_t forms forward to the guarded
+    64/32-bit forms."""
+    n = 0
+    for f in P.by_key.values():
+        if not f.file.endswith("math.gcc_builtin.inl"):
+            continue
+        for e in f.all_events():
+            if e.kind != "call" or not (e.node.get("callee") or "").startswith(("__builtin_clz", "__builtin_ctz")):
+                continue
+            n += 1
+            arg = f.show(RU.uncast(f, e.node["a"][0]))
+            gs = [RU.cmp_norm(f, c_, p_) for c_, p_, b_ in RU.guards(f, e)]
+            okg = any(g and g[1] == "!=" and (g[2] is None or f.is_const(g[2]) == 0) and f.show(RU.uncast(f, g[0])) == arg for g in gs)
+            R.fn(f)
+            R.check(okg, "SPEC", "builtin:%s:zero-handled-before-%s" % (f.name, e.node["callee"]), "include/aws/common/math.gcc_builtin.inl:%d in %s()" % (e.node.get("loc", [0])[0], f.name), "%s(%s) is reached only for a non-zero argument" % (e.node["callee"], arg),
+                    "%s(%s) can be called with 0, for which the builtin is undefined: %s(0) no longer returns the bit width (and differs from the other variants)" % (e.node["callee"], arg, f.name))
+    R.require(n >= 4, "only %d clz/ctz builtin calls found in math.gcc_builtin.inl" % n)
+    for nm in ("aws_clz_size", "aws_ctz_size"):
+        f = P.fn(nm)
+        if R.require(f is not None, "%s not found" % nm):
+            cs = [e.node["callee"] for e in f.all_events() if e.kind == "call" and e.node.get("callee")]
+            R.check(cs in ([nm.replace("_size", "_u64")], [nm.replace("_size", "_u32")]), "SPEC", "builtin:%s:forwards-to-fixed-width" % nm, "%s()" % nm, "forwards to %s" % cs, "%s calls %s instead of the guarded fixed-width form" % (nm, cs))
 
 
 def minmax(R, P):
@@ -359,6 +386,42 @@ def convert(R, P):
     for nd in divs:
         blk = num.elem_of.get(nd["id"], (None,))[0]
         okd = okd and blk is not None and all(t in dom.get(blk, ()) for t in tests)
+    # a quotient of the two frequencies is exact only when one divides the other: every `freq / freq` is guarded by the
+    # divisibility test of the same pair (otherwise the ratio is truncated before it is applied: 3 MHz -> ns uses 333, not 333.3)
+    params = {"old_frequency", "new_frequency"}
+    for nd in divs:
+        if nd["op"] != "/":
+            continue
+        ops = [RU.uncast(f, a) for a in nd["a"]]
+        if not all(o is not None and o["k"] == "var" and o["n"] in params for o in ops):
+            continue
+        pair = (ops[0]["n"], ops[1]["n"])
+        blk = num.elem_of.get(nd["id"], (None,))[0]
+        okg = False
+
+        class _E:
+            pass
+        ev_ = _E()
+        ev_.blk = blk
+        for c_, p_, b_ in RU.guards(f, ev_, dom):
+            t = RU.cmp_norm(f, c_, p_)
+            if not (t and t[1] == "==" and (t[2] is None or f.is_const(t[2]) == 0)):
+                continue
+            x = RU.uncast(f, t[0])
+            srcs = [x]
+            if x is not None and x["k"] == "var":
+                for e2 in f.all_events():
+                    if e2.kind == "decl":
+                        for v in e2.node["vars"]:
+                            if v["n"] == x["n"] and v.get("init") is not None:
+                                srcs.append(RU.uncast(f, v["init"]))
+            for s_ in srcs:
+                if s_ is not None and s_["k"] == "bin" and s_["op"] == "%":
+                    o2 = [RU.uncast(f, a) for a in s_["a"]]
+                    if all(o is not None and o["k"] == "var" for o in o2) and (o2[0]["n"], o2[1]["n"]) == pair:
+                        okg = True
+        R.check(okg, "CONVERT", "frequency-ratio-only-when-exact:%s/%s" % pair, "include/aws/common/clock.inl:%d" % nd.get("loc", [0])[0], "`%s / %s` is computed only under `%s %% %s == 0`" % (pair + pair),
+                "`%s / %s` is computed without the divisibility test of that pair: for frequencies that are not multiples of each other the truncated ratio is applied to the ticks (2999999 ticks at 3 MHz convert to 998999667 ns instead of 999999666)" % pair)
     R.check(okd, "CONVERT", "frequencies-asserted-before-division", "%s()" % f.name, "both frequencies are asserted non-zero before any division (%d divisions)" % len(divs),
             "a division by a frequency is not dominated by the non-zero assertion")
     st_rem = [e for e in f.all_events() if e.kind == "access" and e.node["k"] == "un" and e.node["op"] == "deref" and e.mode == "w" and f.show(e.node["a"][0]) == "remainder"]
@@ -393,6 +456,8 @@ def convert(R, P):
 
 MUTANTS = [
     {"name": "ctz64-int-mask", "file": "include/aws/common/math.fallback.inl", "expect": "SHIFT", "old": "        if (n & (1ULL << idx)) {", "new": "        if (n & (1 << idx)) {"},
+    {"name": "clz-size-calls-the-builtin-directly", "file": "include/aws/common/math.gcc_builtin.inl", "expect": "SPEC", "old": "AWS_STATIC_IMPL size_t aws_clz_size(size_t n) {\n#if SIZE_BITS == 64\n    return aws_clz_u64(n);\n#else\n    return aws_clz_u32(n);\n#endif", "new": "AWS_STATIC_IMPL size_t aws_clz_size(size_t n) {\n    return __builtin_clzl(n);"},
+    {"name": "fraction-scaled-by-truncated-ratio", "file": "include/aws/common/clock.inl", "expect": "CONVERT", "old": "    uint64_t new_ticks_remainder_part = aws_mul_u64_saturating(old_remainder, new_frequency) / old_frequency;", "new": "    uint64_t new_ticks_remainder_part = (new_frequency >= old_frequency) ? aws_mul_u64_saturating(old_remainder, new_frequency / old_frequency) : aws_mul_u64_saturating(old_remainder, new_frequency) / old_frequency;"},
     {"name": "asm-add-reads-signed-overflow", "file": "include/aws/common/math.gcc_x64_asm.inl", "expect": "ASM-FLAG", "old": "    __asm__(\"addq %[argb], %[arga]\\n\" /* [arga] = [arga] + [argb] */\n            \"setc %[flag]\\n\"", "new": "    __asm__(\"addq %[argb], %[arga]\\n\" /* [arga] = [arga] + [argb] */\n            \"seto %[flag]\\n\""},
     {"name": "fallback-mul-refuses-exact-quotient", "file": "include/aws/common/math.fallback.inl", "expect": "SPEC", "old": "AWS_STATIC_IMPL int aws_mul_u64_checked(uint64_t a, uint64_t b, uint64_t *r) {\n    if (a > 0 && b > 0 && a > (UINT64_MAX / b))", "new": "AWS_STATIC_IMPL int aws_mul_u64_checked(uint64_t a, uint64_t b, uint64_t *r) {\n    if (b > 0 && a >= (UINT64_MAX / b))"},
     {"name": "asm-output-not-early-clobber", "file": "include/aws/common/math.gcc_x64_asm.inl", "expect": "VARIANTS", "old": '[arg2] "+&r"(b)', "new": '[arg2] "+r"(b)'},
